@@ -501,3 +501,8 @@ def run(run, tier, seed, replay=None):
     run.sample(dict(stream="corpus", job=corpus()[0]))
     run.sample(dict(stream="groups", job=corpus()[3]))
     run.coverage["traces_validated_against_impl"] = sum(s.get("order_or_name_cases", 0) for s in run.coverage["streams"].values())
+
+    # ---- C12E (append-only hook): the oracle-ordered pipeline model tied to the implementation, and designs that exercise every
+    #      site where the elaborator iterates over a hash-ordered set (harness/vp/c12e.py, notes/C12E.md)
+    from . import c12e
+    c12e.run_tie(run, tier, seed, hashseeds)
